@@ -25,6 +25,7 @@ type HarnessSpec struct {
 	PanicOK  bool           `json:"panic_ok"` // Go panics end the path without being violations
 	Reach    []string       `json:"reach"`    // labels that must be reached (vacuity guard)
 	Note     string         `json:"note"`
+	Labels   []string       `json:"labels"`   // only obligations whose label has one of these prefixes are posed ("" = all)
 }
 
 type Violation struct {
@@ -83,6 +84,19 @@ func (h *HarnessRun) noteUnknown(ex *Exec, what string) {
 		h.unknowns = append(h.unknowns, what+" @"+ex.posStr()+" "+ex.sol.lastErr)
 	}
 }
+// wants reports whether an obligation label belongs to the property being checked.
+func (h *HarnessRun) wants(label string) bool {
+	if len(h.spec.Labels) == 0 {
+		return true
+	}
+	for _, p := range h.spec.Labels {
+		if strings.HasPrefix(label, p) {
+			return true
+		}
+	}
+	return false
+}
+
 func (h *HarnessRun) noteStub(s string) {
 	h.mu.Lock()
 	h.stubs[s] = true
